@@ -16,6 +16,8 @@ import (
 	"log"
 	"os"
 	"runtime/debug"
+	"sort"
+	"strconv"
 	"strings"
 	"syscall"
 
@@ -52,6 +54,10 @@ type Case struct {
 	// StepCap bounds the instrumentation steps (function entries and loop
 	// iterations of pigeon's own packages) one run may take; 0 = no bound.
 	StepCap int64 `json:"step_cap,omitempty"`
+	// WallS, when set, is the watchdog limit of this case in seconds (big
+	// inputs: pigeon's front-end needs seconds per megabyte); the driver uses
+	// it instead of the general limit.
+	WallS int `json:"wall_s,omitempty"`
 }
 
 // RebuildFunc parses the grammar once and builds it twice with the flags of
@@ -79,14 +85,20 @@ type Run struct {
 	OutGoOK       bool               `json:"out_go_ok"`
 	OutGoErr      string             `json:"out_go_err,omitempty"`
 	OutUnresolved string             `json:"out_unresolved,omitempty"` // a method the emitted grammar refers to but the file does not define
-	Fired         simos.Fired        `json:"fired"`
-	Map           simmap.Stats       `json:"map"`
-	StdoutFull    []byte             `json:"stdout_full,omitempty"`
-	StderrFull    []byte             `json:"stderr_full,omitempty"`
-	FilesFull     map[string][]byte  `json:"files_full,omitempty"`
-	Steps         int64              `json:"steps"`
-	Sched         simtask.Stats      `json:"sched"`
-	StepCapHit    bool               `json:"step_cap_hit,omitempty"`
+	// OutDangling: names of rules the emitted grammar value refers to but does
+	// not contain (sorted). Not wrong by itself - pigeon passes references to
+	// rules the grammar never defines on to the parser - but a flag that only
+	// optimises must not add any.
+	OutDangling []string          `json:"out_dangling,omitempty"`
+	Fired       simos.Fired       `json:"fired"`
+	Map         simmap.Stats      `json:"map"`
+	StdoutFull  []byte            `json:"stdout_full,omitempty"`
+	StderrFull  []byte            `json:"stderr_full,omitempty"`
+	FilesFull   map[string][]byte `json:"files_full,omitempty"`
+	Steps       int64             `json:"steps"`
+	Sched       simtask.Stats     `json:"sched"`
+	StepCapHit  bool              `json:"step_cap_hit,omitempty"`
+	EnvReads    int               `json:"env_reads,omitempty"`
 }
 
 // Result is the answer to a Case.
@@ -146,6 +158,7 @@ func RunOnce(mainFn func(), c *Case) (r Run) {
 	r.ExitCalled = w.Exited
 	r.Exit = w.ExitCode
 	r.Fired = w.Fired
+	r.EnvReads = w.EnvReads
 	r.Map = simmap.Snapshot()
 	so, se := w.StdoutBytes(), w.StderrBytes()
 	r.Stdout, r.Stderr = sum(so), sum(se)
@@ -179,6 +192,7 @@ func RunOnce(mainFn func(), c *Case) (r Run) {
 			r.OutGoErr = strings.SplitN(err.Error(), "\n", 2)[0]
 		} else {
 			r.OutUnresolved = unresolvedMethods(out)
+			r.OutDangling = danglingRules(out)
 		}
 	}
 	if c.Full {
@@ -335,6 +349,84 @@ func unresolvedMethods(src []byte) string {
 		return true
 	})
 	return missing
+}
+
+// danglingRules lists the rule names that ruleRefExpr nodes of the emitted
+// grammar value mention and no rule of that value carries.
+func danglingRules(src []byte) []string {
+	fset := token.NewFileSet()
+	f, err := parser.ParseFile(fset, "out.go", src, 0)
+	if err != nil {
+		f, err = parser.ParseFile(fset, "out.go", append([]byte("package p\n"), src...), 0)
+		if err != nil {
+			return nil
+		}
+	}
+	strField := func(cl *ast.CompositeLit, key string) (string, bool) {
+		for _, el := range cl.Elts {
+			kv, ok := el.(*ast.KeyValueExpr)
+			if !ok {
+				continue
+			}
+			if id, ok := kv.Key.(*ast.Ident); ok && id.Name == key {
+				if bl, ok := kv.Value.(*ast.BasicLit); ok && bl.Kind == token.STRING {
+					if s, err := strconv.Unquote(bl.Value); err == nil {
+						return s, true
+					}
+				}
+			}
+		}
+		return "", false
+	}
+	rules := map[string]bool{}
+	refs := map[string]bool{}
+	ast.Inspect(f, func(n ast.Node) bool {
+		cl, ok := n.(*ast.CompositeLit)
+		if !ok {
+			return true
+		}
+		id, ok := cl.Type.(*ast.Ident)
+		if !ok {
+			// elements of []*rule{ {...}, ... } have no type of their own
+			if _, hasExpr := strFieldKey(cl, "expr"); hasExpr {
+				if nm, ok := strField(cl, "name"); ok {
+					rules[nm] = true
+				}
+			}
+			return true
+		}
+		switch id.Name {
+		case "rule":
+			if nm, ok := strField(cl, "name"); ok {
+				rules[nm] = true
+			}
+		case "ruleRefExpr":
+			if nm, ok := strField(cl, "name"); ok {
+				refs[nm] = true
+			}
+		}
+		return true
+	})
+	var out []string
+	for r := range refs {
+		if !rules[r] {
+			out = append(out, r)
+		}
+	}
+	sort.Strings(out)
+	return out
+}
+
+// strFieldKey reports whether the literal has the given key at all.
+func strFieldKey(cl *ast.CompositeLit, key string) (ast.Expr, bool) {
+	for _, el := range cl.Elts {
+		if kv, ok := el.(*ast.KeyValueExpr); ok {
+			if id, ok := kv.Key.(*ast.Ident); ok && id.Name == key {
+				return kv.Value, true
+			}
+		}
+	}
+	return nil, false
 }
 
 func runRebuild(rebuild RebuildFunc, c *Case) (runs []Run) {
